@@ -68,12 +68,13 @@ type reqResult struct {
 }
 
 type worldSpec struct {
-	Name        string
-	Seed        func(st *memstore.Store)
-	Gen1, Gen2  []reqSpec
-	Crash       bool // a crash may be injected at any point (one per execution)
-	FaultInsert bool // InsertLogs may fail (one deviation each)
-	FaultReads  bool // store reads may fail
+	Name          string
+	Seed          func(st *memstore.Store)
+	Gen1, Gen2    []reqSpec
+	Crash         bool // a crash may be injected at any point (one per execution)
+	FaultInsert   bool // InsertLogs may fail (one deviation each)
+	StoreGoesDown bool // from one InsertLogs on (one deviation) every InsertLogs fails
+	FaultReads    bool // store reads may fail
 }
 
 type worldRun struct {
@@ -233,8 +234,21 @@ func runWorld(spec *worldSpec, r *explore.Replayer) *worldRun {
 	}
 	w.SeedLen = w.Store.Len()
 	w.Pub = &engineh.Publisher{Store: w.Store, Hook: func(topic string) { verifrt.Point("publish " + topic) }}
+	storeDown := false
 	w.Store.Hook = func(op string) error {
 		isInsert := strings.HasPrefix(op, "InsertLogs")
+		if isInsert && spec.StoreGoesDown {
+			// the store fails from some insertion on and stays down (one deviation: where), unlike a transient fault
+			if storeDown {
+				verifrt.Point(op + " (store down)")
+				return errInjected
+			}
+			if verifrt.Choice(op, 2) == 1 {
+				storeDown = true
+				return errInjected
+			}
+			return nil
+		}
 		if (isInsert && spec.FaultInsert) || (!isInsert && spec.FaultReads) {
 			if verifrt.Choice(op, 2) == 1 {
 				return errInjected
@@ -256,6 +270,8 @@ func runWorld(spec *worldSpec, r *explore.Replayer) *worldRun {
 			}
 			s.Salt = h
 		}
+		// the process serves several ledgers through one publisher: another ledger's monitor exists before this one's
+		_ = bus.NewLedgerMonitor(w.Pub, "other-ledger")
 		cmd := command.New(w.Store, command.NewDefaultLocker(), sharedCompiler, command.NewReferencer(), bus.NewLedgerMonitor(w.Pub, "l1"))
 		if err := cmd.Init(ctx); err != nil {
 			panic(err)
